@@ -137,12 +137,12 @@ def fallback(prop, unit):
     """Bounded stand-in, used ONLY when the verifier could not decide the unit (construct outside the accepted
     subset, lost anchor, resource limit): run the real code over a stated finite space and report a concrete
     failing input if there is one.  Returns (concrete-or-None, description-of-bound)."""
-    if unit == 'u_bq':
+    if unit in ('u_bq', 'u_small'):
         tool, err = build_tool('bqcheck')
         if tool is None:
             return None, 'bqcheck did not build: ' + err[-300:]
         p = subprocess.run([tool], capture_output=True, text=True, timeout=900)
-        bound = '<=3 buffers, <=4 chars over {a,B,-,e-acute}, 6 patterns, ops next/peek/pop_except_from/eat'
+        bound = '<=3 buffers, <=4 chars over {a,B,-,e-acute,U+2026}, 6 patterns, ops next/peek/pop_except_from/eat'
         m = re.search(r'MISMATCH (.*)', p.stdout)
         if m:
             return dict(tool='replay/src/bin/bqcheck.rs', kind='bounded-model-mismatch', input=m.group(1), raw=p.stdout[-2000:]), bound
@@ -170,6 +170,16 @@ XML_CONTEXTS = [
 ]
 
 
+def rust_unescape(body):
+    """undo Rust's {:?} escaping of a string literal's body"""
+    def rep(m):
+        t = m.group(1)
+        if t.startswith('u{'):
+            return chr(int(t[2:-1], 16))
+        return {'n': '\n', 'r': '\r', 't': '\t', '0': '\0', '\\': '\\', '"': '"', "'": "'"}.get(t, m.group(0))
+    return re.sub(r'\\(u\{[0-9a-fA-F]+\}|.)', rep, body)
+
+
 def rerun(conc):
     m = re.search(r'replay/src/bin/(\w+)\.rs', conc.get('tool', ''))
     bin_name = m.group(1) if m and m.group(1) in ('xtok', 'xrt', 'htok', 'hser', 'htrace', 'henc', 'hshadow', 'xns') else 'htok'
@@ -184,7 +194,7 @@ def rerun(conc):
     if bin_name == 'henc':
         # henc's --selfcheck lines are `labels<TAB>document`: look the document up in the registered cases
         import kanirun
-        doc = re.sub(r'\\(["\'])', r'\1', body)
+        doc = rust_unescape(body)
         hit = [c for c in kanirun.HENC_CASES if c[1] == doc]
         if not hit:
             print('the document of this replay file is not one of the registered cases:', doc)
@@ -192,7 +202,7 @@ def rerun(conc):
         line = '%s\t%s' % hit[0]
     if bin_name == 'xns':
         import kanirun
-        doc = re.sub(r'\\(["\'])', r'\1', body)
+        doc = rust_unescape(body)
         hit = [c for c in kanirun.XNS_CASES if c[1] == doc]
         if not hit:
             print('the document of this replay file is not one of the registered cases:', doc)
@@ -200,7 +210,7 @@ def rerun(conc):
         line = '%s\t%s' % hit[0]
     if bin_name == 'hshadow':
         import kanirun
-        doc = re.sub(r'\\(["\'])', r'\1', body)
+        doc = rust_unescape(body)
         hit = [c for c in kanirun.SHADOW_CASES if c[2] == doc]
         if not hit:
             print('the document of this replay file is not one of the registered cases:', doc)
